@@ -5,6 +5,7 @@ import EdpVerif.Lemmas.DecNoTrailing
 import EdpVerif.Impl.TableTie
 import EdpVerif.Generated.MiscC13
 import EdpVerif.Lemmas.Convert
+import EdpVerif.Lemmas.DecSorted
 /-
 C13 — the zero-copy decoder agrees with the owned decoder.
 
@@ -87,6 +88,19 @@ theorem C13_agree_converted (x : Ext) (bs : Bytes) (t : Term) (fl : List Bool) (
   intro h
   rw [toOwned_tagWith t fl hm]
   exact C13_agree x bs t h
+
+/-- the same with the `btreeSorted` guard discharged: the maps of a term the zero-copy decoder returns ARE `BTreeMap`s
+(Lemmas/DecSorted.lean: induction over the decoder model, every tag) as soon as their keys carry big integers with minimal
+digits only (`mapKeysMin t`; the decoder keeps non-minimal digits, on which the library's order is not transitive) -/
+theorem C13_agree_converted_decoded (x : Ext) (bs : Bytes) (t : Term) (fl : List Bool) (hk : mapKeysMin t = true) :
+    decodeBorrowed x bs = .ok t → btreeSorted t = true ∧ decode x bs = .ok (toOwned (tagWith t fl).1) := by
+  intro h
+  have hb : btreeSorted t = true :=
+    btreeSorted_of_mapsStrict t (mapsStrict_of_btInv t (decodeWith_btInv x _ bs t h) hk)
+  exact ⟨hb, C13_agree_converted x bs t fl hb h⟩
+
+example : mapKeysMin (.tuple [.map [(.big false [0, 1], .big false [1, 0])]]) = true := by
+  simp [mapKeysMin, mapKeysMinL, mapKeysMinKV, keysWFo, WFo, minDigits]
 
 /-- `is_borrowed` answers whether some `Cow` of the tree is borrowed: every tree -/
 theorem C13_is_borrowed_iff_some_flag (b : BTerm) : isBorrowed b = (flagsOf b).any id := isBorrowed_flags b
